@@ -193,17 +193,18 @@ def run_case(case, stats):
                     t_stop = env.now + second["delay"] + 1
                     due = rs + (t_stop - t0) * factor
                     got = False
-                    for _attempt in range(50):
-                        lag = clock.t - due
-                        expect_err = strict and lag > factor
-                        try:
-                            env.run(until=t_stop)
-                        except SleepInterrupted:
-                            stats["steps_interrupted_in_sleep"] += 1
-                            continue                # the pacing sleep was left by an exception: the caller calls run() again
-                        except RuntimeError as e:
-                            got = str(e).startswith("Simulation too slow for real time")
+                    lag = clock.t - due
+                    expect_err = strict and lag > factor
+                    try:
+                        env.run(until=t_stop)
+                    except SleepInterrupted:
+                        # the pacing sleep was left by an exception: a second run(until=t) would find the first call's stop
+                        # occurrence still scheduled and step twice -- not judged here (the step()-level loop above covers it)
+                        stats["steps_interrupted_in_sleep"] += 1
+                        second = None
                         break
+                    except RuntimeError as e:
+                        got = str(e).startswith("Simulation too slow for real time")
                     stats["run_until_on_empty_schedule"] += 1
                     if got != expect_err and not ((not dyadic) and abs(lag - factor) < 1e-9):
                         bad("no-too-slow-error-although-beyond-factor" if expect_err else "too-slow-error-although-within-factor",
